@@ -14,6 +14,8 @@
  *
  * usage:
  *   grow_sched sched <initialPages> <maxPages> <shared> <schedule> <op>...     op = g<delta> | s (memory.size)
+ *        | o<pages> (observer: memory.size; if it sees more than <pages> pages: store a marker byte into the last visible
+ *          page, scheduling point, read it back; ret 0 = not grown yet, 346 (0x15a) = marker intact, 256 = marker LOST)
  *        -> ret <v0> <v1> ... pages <p> size <s> [blocked <t>...] [held <t>]   (ret of an unfinished op: -;
  *           held t: operation t has RETURNED but the memory's mutex is still locked by it)
  *   grow_sched seq <initialPages> <maxPages> <shared> <delta>...           (one thread, consecutive grows)
@@ -24,7 +26,8 @@
  *        -> r=<ret>,p=<pages>,o=<old bytes intact 0|1>,z=<number of non-zero bytes in the new pages>,f=<first such offset|->
  *   grow_sched alloc <initialPages> <maxPages> <shared>                   -> size <s> pages <p> max <m>
  *   grow_sched touch <initialPages> <maxPages> <shared> <byteOffset>      store one byte (run under ASan)
- *   grow_sched stress <growers> <iterations> <sizeReaders>               free-running (run under TSan)
+ *   grow_sched stress <growers> <iterations> <sizeReaders> [<oldPageAccessors> [<newPageAccessors>]]   free-running (TSan):
+ *        growers call grow(1); accessors do plain i32_store8/i32_load8_u on page 0 resp. store into the newest visible page
  *   grow_sched after <initialPages> <maxPages> <delta>                   free-running (-DGROW_FREE_RUNNING): grow(delta), then
  *        ANOTHER thread does memory.size and grow(1) -> first <v> size <s> grow <g> pages <p>   (hangs if the mutex was leaked)
  */
@@ -120,6 +123,18 @@ static void* opThread(void* arg) {
     sem_wait(&turn[me]);
     if (op->kind == 'g') {
         op->ret = wasmMemoryGrow(op->mem, op->delta);
+    } else if (op->kind == 'o') {
+        /* observer: memory.size; if it sees more than <delta> pages it stores a marker into the LAST page it can see,
+         * lets the others run (scheduling point) and reads the marker back: 0 = not grown yet, 0x100 + byte read */
+        U32 seen = wasmMemorySize(op->mem);
+        if (seen <= op->delta) {
+            op->ret = 0;
+        } else {
+            U64 addr = (U64)(seen - 1) * 65536u + 7u;
+            i32_store8(op->mem, addr, 0x5a);
+            yield_();
+            op->ret = 0x100u + i32_load8_u(op->mem, addr);
+        }
     } else {
         op->ret = wasmMemorySize(op->mem);    /* what c.c emits for memory.size (since ee826ee) */
     }
@@ -142,7 +157,7 @@ static int cmd_sched(int argc, char** argv) {
     sem_init(&back, 0, 0);
     for (i = 0; i < n; i++) {
         ops[i].id = i; ops[i].kind = argv[6 + i][0]; ops[i].mem = mem; ops[i].ret = 0;
-        ops[i].delta = ops[i].kind == 'g' ? (U32)strtoul(argv[6 + i] + 1, NULL, 0) : 0;
+        ops[i].delta = (ops[i].kind == 'g' || ops[i].kind == 'o') ? (U32)strtoul(argv[6 + i] + 1, NULL, 0) : 0;
         sem_init(&turn[i], 0, 0);
         pthread_create(&th[i], NULL, opThread, &ops[i]);
     }
@@ -223,7 +238,7 @@ static int cmd_touch(char** argv) {
 /* free-running stress for ThreadSanitizer: growers and size readers on one shared memory */
 static wasmMemory* stressMem;
 static int stressIter;
-static U32 sinks[2 * MAXT];
+static U32 sinks[6 * MAXT];
 static void* stressGrow(void* a) { int i; U32 acc = 0; for (i = 0; i < stressIter; i++) acc += wasmMemoryGrow(stressMem, 1); *(U32*)a = acc; return NULL; }
 static __attribute__((noinline)) U32 memorySize(wasmMemory* m) { return wasmMemorySize(m); }   /* `si = wasmMemorySize(m);` as emitted by c.c */
 static void* stressSize(void* a) { int i; U32 acc = 0; for (i = 0; i < stressIter; i++) acc += memorySize(stressMem); *(U32*)a = acc; return NULL; }
@@ -242,14 +257,32 @@ static int cmd_after(char** argv) {
     return 0;
 }
 
-static int cmd_stress(char** argv) {
+/* plain loads/stores (the header's own accessors: they read `mem->data` without the lock) on the FIRST page, which
+ * exists from the start, while other threads grow the memory */
+static void* stressOld(void* a) {
+    int i; U32 acc = 0; U64 base = (U64)((U32*)a - sinks) * 0x400u;      /* every accessor thread has its own bytes */
+    for (i = 0; i < stressIter; i++) { i32_store8(stressMem, base + (U64)(i & 0x3ff), (U32)i); acc += i32_load8_u(stressMem, base + (U64)((i * 7) & 0x3ff)); }
+    *(U32*)a = acc; return NULL;
+}
+/* stores into the last page memory.size reports (a page another thread has just added) */
+static void* stressNew(void* a) {
+    int i; U32 acc = 0; U64 mine = 11u + (U64)((U32*)a - sinks) * 64u;
+    for (i = 0; i < stressIter; i++) { U32 p = wasmMemorySize(stressMem); i32_store8(stressMem, (U64)(p - 1) * 65536u + mine, 0x5a); acc += p; }
+    *(U32*)a = acc; return NULL;
+}
+
+static int cmd_stress(int argc, char** argv) {
     int n = atoi(argv[2]), i, withSize = atoi(argv[4]);
-    pthread_t th[2 * MAXT];
+    int oldAcc = argc > 5 ? atoi(argv[5]) : 0, newAcc = argc > 6 ? atoi(argv[6]) : 0, k;
+    pthread_t th[6 * MAXT];
     stressIter = atoi(argv[3]);
     stressMem = wasmMemoryAllocate(1, 60000, true);
     for (i = 0; i < n; i++) pthread_create(&th[i], NULL, stressGrow, &sinks[i]);
     for (i = 0; i < withSize; i++) pthread_create(&th[n + i], NULL, stressSize, &sinks[n + i]);
-    for (i = 0; i < n + withSize; i++) pthread_join(th[i], NULL);
+    k = n + withSize;
+    for (i = 0; i < oldAcc; i++, k++) pthread_create(&th[k], NULL, stressOld, &sinks[k]);
+    for (i = 0; i < newAcc; i++, k++) pthread_create(&th[k], NULL, stressNew, &sinks[k]);
+    for (i = 0; i < k; i++) pthread_join(th[i], NULL);
     printf("pages %u expected %u\n", stressMem->pages, 1 + (U32)(n * stressIter));
     return 0;
 }
@@ -260,7 +293,7 @@ int main(int argc, char** argv) {
     if (argc >= 6 && !strcmp(argv[1], "content")) return cmd_content(argc, argv);
     if (argc == 5 && !strcmp(argv[1], "alloc")) return cmd_alloc(argv);
     if (argc == 6 && !strcmp(argv[1], "touch")) return cmd_touch(argv);
-    if (argc == 5 && !strcmp(argv[1], "stress")) return cmd_stress(argv);
+    if (argc >= 5 && argc <= 7 && !strcmp(argv[1], "stress")) return cmd_stress(argc, argv);
     if (argc == 5 && !strcmp(argv[1], "after")) return cmd_after(argv);
     fprintf(stderr, "usage: see grow_sched.c\n");
     return 2;
